@@ -568,7 +568,7 @@ func RunAssertPanic(c *Ctx, pkgs []string, allowAssert, allowPanic []allowSite) 
 		allowedP[a.fn+"|"+a.expr] = a.why
 	}
 	usedA, usedP := map[string]bool{}, map[string]bool{}
-	scan := func(holder string, pk *FuncInfo, root ast.Node, info *types.Info, ctl bool) {
+	scan := func(holder string, pk *FuncInfo, owner *FuncInfo, root ast.Node, info *types.Info, ctl bool) {
 		pm := buildParents(root)
 		ast.Inspect(root, func(n ast.Node) bool {
 			switch x := n.(type) {
@@ -584,6 +584,16 @@ func RunAssertPanic(c *Ctx, pkgs []string, allowAssert, allowPanic []allowSite) 
 				why, ok := allowedA[key]
 				if ok {
 					usedA[key] = true
+				}
+				if !ok && owner != nil {
+					// name-insensitive rendering; a helper introduced after the baseline counts for the functions that use it
+					ce := canonExpr(owner, x, c.P.Fset)
+					for _, nm := range c.attributed(owner) {
+						if w, has := allowedA[nm+"|"+ce]; has {
+							why, ok = w, true
+							usedA[nm+"|"+ce] = true
+						}
+					}
 				}
 				c.R.Obl(Obligation{Rule: "E4.R-assert", Func: holder, Construct: "unchecked assertion " + types.ExprString(x), Pos: c.P.Position(x.Pos()), Discharged: ok, Nontrivial: true, How: []string{why}, Ctl: ctl})
 				if !ok {
@@ -614,7 +624,7 @@ func RunAssertPanic(c *Ctx, pkgs []string, allowAssert, allowPanic []allowSite) 
 			continue
 		}
 		nf++
-		scan(fi.Name, nil, fi.Body, fi.Pkg.TypesInfo, fi.Ctl)
+		scan(fi.Name, nil, fi, fi.Body, fi.Pkg.TypesInfo, fi.Ctl)
 		c.R.Saw(fi.Name)
 	}
 	c.R.Extra["assert_panic_functions_scanned"] = nf
